@@ -497,7 +497,6 @@ def render(n, form='full'):
     return lt + n.op + rt
 
 
-OPCHARS = set('<>=!|&~-+#/*^')
 
 
 def _merges(a, b):
@@ -524,11 +523,3 @@ def vclass(v):
 
 def vtype(v):
     return v[0]
-
-
-def f2bits(x):
-    return struct.pack('>d', x)
-
-
-def i2bits(x):
-    return struct.pack('>Q', x & MASK)
